@@ -54,7 +54,9 @@ def standard_flow(C, tier, replay=None):
     death (violation|inconclusive), nontrivial (pred on trace), assumptions, rule, directed"""
     t0 = time.time()
     prop = C["prop"]
-    binp = vlib.build_driver(C["driver"])
+    # one driver per check, or several: C["driver_of"](plan) names the driver of a plan (default C["driver"])
+    drv_of = C.get("driver_of") or (lambda p: C["driver"])
+    bins = {d: vlib.build_driver(d) for d in [C["driver"]] + list(C.get("more_drivers", []))}
     states = transitions = 0
     mc_stats = []
     if not replay:
@@ -74,10 +76,23 @@ def standard_flow(C, tier, replay=None):
         pstats = [{"source": "replay", "plans": len(plans)}]
     else:
         plans, pstats = _mk_plans(C["plan_sources"], tier, C.get("directed"))
+    if C.get("expand_plans") and not replay:
+        plans = C["expand_plans"](plans, tier)
     if not plans:
         raise Inconclusive("no plans generated")
-    traces, deaths = vlib.run_driver_parallel(binp, plans, prop, k=C.get("driver_parallel", 1), extra_args=C.get("driver_args", ()),
-                                              timeout=C.get("driver_timeout", 1500), env=C.get("driver_env"))
+    traces, deaths, groups = {}, [], {}
+    for p in plans:
+        groups.setdefault(p.get("driver") or drv_of(p), []).append(p)
+    for d, ps in groups.items():
+        if d not in bins:
+            bins[d] = vlib.build_driver(d)
+        par = C.get("driver_parallel", 1)
+        if isinstance(par, dict):
+            par = par.get(d, 1)
+        t_, d_ = vlib.run_driver_parallel(bins[d], ps, "%s-%s" % (prop, d), k=par, extra_args=C.get("driver_args", ()),
+                                          timeout=C.get("driver_timeout", 1500), env=C.get("driver_env"))
+        traces.update(t_)
+        deaths.extend(d_)
     byid = {p["plan"]: p for p in plans}
     tl = [traces[p["plan"]] for p in plans if p["plan"] in traces]
     tmod, tcfg = C["trace"]
